@@ -98,9 +98,16 @@ fn walk(g: &usvg::Group, out: &mut Vec<String>) {
                         },
                         None => ("null".to_string(), 0.0),
                     };
+                    let rect = |r: usvg::Rect| format!("[{},{},{},{}]", num(r.x()), num(r.y()), num(r.width()), num(r.height()));
+                    let boxes = format!(
+                        "[{},{},{},{},{}]",
+                        rect(p.abs_bounding_box()), rect(p.stroke_bounding_box()), rect(p.abs_stroke_bounding_box()),
+                        rect(n.abs_layer_bounding_box().map(|r| r.to_rect()).unwrap_or(p.abs_bounding_box())),
+                        rect(n.bounding_box())
+                    );
                     out.push(format!(
-                        "{{\"t\":\"path\",\"id\":{},\"bbox\":[{},{},{},{}],\"abs_ts\":[{},{},{},{},{},{}],\"fill\":{},\"fo\":{},\"stroke\":{},\"visible\":{}}}",
-                        esc(p.id()), num(b.x()), num(b.y()), num(b.width()), num(b.height()),
+                        "{{\"t\":\"path\",\"id\":{},\"boxes\":{},\"bbox\":[{},{},{},{}],\"abs_ts\":[{},{},{},{},{},{}],\"fill\":{},\"fo\":{},\"stroke\":{},\"visible\":{}}}",
+                        esc(p.id()), boxes, num(b.x()), num(b.y()), num(b.width()), num(b.height()),
                         num(t.sx), num(t.ky), num(t.kx), num(t.sy), num(t.tx), num(t.ty),
                         fill, num(fo), p.stroke().is_some(), p.is_visible()
                     ));
